@@ -95,6 +95,11 @@ class SimLock:
     def release(self):
         if not self._locked:
             raise RuntimeError('release unlocked lock')
+        sim = _CURRENT
+        if sim is not None and not sim.aborting:
+            # a thread may be pre-empted just before it lets go of a lock (the
+            # window between its last look at shared state and the release)
+            sim.point('u')
         self._locked = False
         # every release is a scheduling point (also without waiters): what a
         # thread does with a value it computed under the lock happens after
